@@ -7,6 +7,7 @@ package muc
 import (
 	"context"
 	"encoding/xml"
+	"errors"
 
 	"mellium.im/xmlstream"
 	"mellium.im/xmpp"
@@ -35,6 +36,11 @@ type Channel struct {
 
 	join   chan joinCtx
 	depart chan struct{}
+
+	// joined is true from the moment the room's self-presence has been handed to
+	// a pending join until the occupant's unavailable presence is processed.
+	// It is guarded by client.managedM.
+	joined bool
 }
 
 // Addr returns the address of the channel.
@@ -47,12 +53,12 @@ func (c *Channel) Me() jid.JID {
 	return c.addr
 }
 
-// Joined returns true if this room is still being managed by the service.
+// Joined returns true if the room has been joined successfully and the
+// occupant's unavailable presence has not been received since.
 func (c *Channel) Joined() bool {
 	c.client.managedM.Lock()
 	defer c.client.managedM.Unlock()
-	_, ok := c.client.managed[c.addr.Bare().String()]
-	return ok
+	return c.joined
 }
 
 // Leave exits the MUC, causing Joined to begin to return false.
@@ -123,6 +129,17 @@ func (c *Channel) LeavePresence(ctx context.Context, status string, p stanza.Pre
 	verifhook.Yield("muc.leave.select")
 	select {
 	case err := <-errChan:
+		var stanzaErr stanza.Error
+		if errors.As(err, &stanzaErr) {
+			// The room answered our departure with an error, which it only does if
+			// it does not consider us an occupant: we are not in the room.
+			c.client.managedM.Lock()
+			if key := c.addr.String(); c.client.managed[key] == c {
+				delete(c.client.managed, key)
+			}
+			c.joined = false
+			c.client.managedM.Unlock()
+		}
 		return err
 	case <-c.depart:
 	case <-ctx.Done():
